@@ -9,6 +9,7 @@ import (
 	"runtime"
 	"sort"
 	"sync"
+	"sync/atomic"
 	"time"
 
 	"github.com/filecoin-project/go-f3/chainexchange"
@@ -347,6 +348,51 @@ func spinUntil(cond func() bool) bool {
 	return cond()
 }
 
+// partialMarkers is set once a marker was observed to be cached only in part for
+// good (a tree that drops some prefix): from then on seeing any prefix plus a short
+// grace is accepted as completion, so that such a tree is judged by the oracle
+// instead of stalling every sequence on marker timeouts.
+var partialMarkers atomic.Bool
+
+// awaitMarker waits until all n prefixes of a completion marker are visible. The
+// two-tipset markers are cached prefix by prefix, so "any prefix visible" is not
+// yet "message processed".
+func awaitMarker(n int, visible func(i int) bool) bool {
+	all := func() bool {
+		for i := 0; i < n; i++ {
+			if !visible(i) {
+				return false
+			}
+		}
+		return true
+	}
+	anyOne := func() bool {
+		for i := 0; i < n; i++ {
+			if visible(i) {
+				return true
+			}
+		}
+		return false
+	}
+	if !partialMarkers.Load() {
+		if spinUntil(all) {
+			return true
+		}
+		if !anyOne() {
+			return false
+		}
+		partialMarkers.Store(true)
+		return true
+	}
+	if !spinUntil(anyOne) {
+		return false
+	}
+	for i := 0; i < 200 && !all(); i++ {
+		time.Sleep(50 * time.Microsecond)
+	}
+	return true
+}
+
 func (s *seq) uniqueChain(root *node, n int) *gpbft.ECChain { return s.g.grow(root, n, 0, true) }
 
 // own = the node's own Broadcast. Its effects are asynchronous (a queue drained by
@@ -388,28 +434,17 @@ func (s *seq) own(inst uint64, chain *gpbft.ECChain) {
 			markerB = nil
 		}
 	}
-	// a marker counts as seen when any of its prefixes is visible (read-only peek)
-	okA := spinUntil(func() bool {
-		for _, k := range akeys {
-			if w, ph, _ := s.r.ex.VerifPeek(scratchInstance, k); w && !ph {
-				return true
-			}
-		}
-		return false
+	// a marker is complete when all of its prefixes are visible (read-only peek); see awaitMarker
+	okA := awaitMarker(len(akeys), func(i int) bool {
+		w, ph, _ := s.r.ex.VerifPeek(scratchInstance, akeys[i])
+		return w && !ph
 	})
 	okB := true
 	if markerB != nil {
 		bkeys := prefixKeys(markerB.chain, s.rng)
-		if len(bkeys) > 1 && markerB.instance == s.cur && s.input != nil {
-			bkeys = bkeys[1:] // the first prefix is the (already known) base of the input
-		}
-		okB = spinUntil(func() bool {
-			for _, k := range bkeys {
-				if w, _, d := s.r.ex.VerifPeek(markerB.instance, k); w || d {
-					return true
-				}
-			}
-			return false
+		okB = awaitMarker(len(bkeys), func(i int) bool {
+			w, ph, d := s.r.ex.VerifPeek(markerB.instance, bkeys[i])
+			return (w && !ph) || d
 		})
 	}
 	if !okA || !okB {
